@@ -43,7 +43,8 @@ TEXT = {
     "C08": {
         "level": "Theorems (Props/C08.lean) on a model of Go slices (backing arrays with capacity, in-place vs reallocating append, arbitrary growth policy): step_preserves_owned, "
                  "family_frame / builders_frame / family_frame_history (no operation changes what any live token or other builder reads), siblings_independent; pinned witness "
-                 "header_clone_breaks_siblings (D4) and deep_clone_keeps_siblings by rfl. Tied by random family histories (several builders from one parent, interleaved adds, "
+                 "header_clone_breaks_siblings (D4) and deep_clone_keeps_siblings by rfl. Props/C08Builder.lean (D20, reference cells): buildCopy_frame (whatever is added to a builder "
+                 "after Build, the built token reads what it read), buildCopy_twice, buildShared_changes (witness of the pinned pointer sharing). Tied by random family histories (several builders from one parent, interleaved adds, "
                  "append to parent, seal, reload, lookups) with an observation panel on every live token after every operation, and the Lean wire model decoding every final token.",
         "note": COMMON_NOTE + "Modelled, not verified: Go slice semantics; absence of other aliasing is checked dynamically only.",
         "technique": "Lean 4 proof (ownership invariant over a heap model, induction over histories) + differential correspondence + observation-stability search",
